@@ -30,6 +30,10 @@ type CrashItem struct {
 	Devs  []sched.Dev `json:"devs,omitempty"`
 	Kill  bool        `json:"kill,omitempty"`  // validate the crash model with real SIGKILLs in child processes
 	Clean bool        `json:"clean,omitempty"` // clean close + reopen after the seed
+	// FastSync: the node is restarted with bootstrap *and* fast-sync enabled: after Init it is CatchingUp and
+	// runs Node.fastForward once. 1: against its peers as they are; 2: nobody answers (peers not reachable yet).
+	// When no anchor is adopted the node goes on Babbling from its own database and everything below applies.
+	FastSync int `json:"fs,omitempty"`
 }
 
 type CrashResult struct {
@@ -148,7 +152,7 @@ func runCrashPoint(it CrashItem, p int, res *CrashResult, dir string) {
 		}
 	}
 	// events are recorded by the cluster scan only after a completed step: look them up in the store after restart too
-	if err := x.C.Restart(0, true, false); err != nil {
+	if err := x.C.Restart(0, true, it.FastSync > 0); err != nil {
 		viol("restart-failed", err.Error())
 		return
 	}
@@ -159,6 +163,39 @@ func runCrashPoint(it CrashItem, p int, res *CrashResult, dir string) {
 		}
 	}
 	n := x.C.Nodes[0]
+	if it.FastSync > 0 {
+		res.Ctr["restarts_with_fast_sync_enabled"]++
+		if st := n.Node.GetState().String(); st != "CatchingUp" {
+			viol("fast-sync-restart-not-catching-up", "state after Init with bootstrap + fast-sync is "+st)
+		}
+		ff := sched.Action{K: "FF", A: 0}
+		if it.FastSync == 2 {
+			ff.Fault = "reqF"
+		}
+		x.Step(ff)
+		if n.FFStep >= 0 && len(n.App.Restores) > 0 {
+			// the node adopted a peer's anchor: it is no longer the node its database describes (C13 speaks
+			// about what follows); only agreement and finality are monitored for the continuation
+			res.Ctr["fast_forwarded_after_bootstrap"]++
+			x.Step(sched.Action{K: "T", A: 1})
+			x.FairSuffix(40)
+			res.Steps += x.Steps
+			for _, v := range x.Viol {
+				if v.Property == "C01" || v.Property == "C02" || v.Property == "*" {
+					idx := []int{}
+					for _, cr := range n.App.Commits {
+						idx = append(idx, cr.Body.Index)
+					}
+					viol("continuation-"+v.Property+"-"+v.Key, fmt.Sprintf("%s (restarted with bootstrap + fast-sync: the new application saw blocks %v, restores (after #commits, to block) %v)", v.What, idx, n.App.RestoreAt))
+				}
+			}
+			return
+		}
+		res.Ctr["no_anchor_adopted_goes_on_from_database"]++
+		if st := n.Node.GetState().String(); st != "Babbling" {
+			viol("fast-sync-restart-stuck", "state after the unsuccessful fast-forward is "+st)
+		}
+	}
 	// 1. re-delivery of every block delivered before the cut, identical, in order
 	if len(n.App.Commits) < len(oldCommits) {
 		viol("blocks-not-redelivered", fmt.Sprintf("delivered %d blocks before the crash, bootstrap re-delivered %d", len(oldCommits), len(n.App.Commits)))
@@ -454,6 +491,18 @@ func init() {
 				}
 			}
 		}
+		// the same crash points with fast-sync enabled at the restart (bootstrap, then CatchingUp and one
+		// Node.fastForward): 2 = no peer answers, 1 = peers as they are
+		fsStride := 3
+		if th {
+			fsStride = 1
+		}
+		for _, mode := range []int{2, 1} {
+			items = append(items, CrashItem{Base: srcs[0].base, Clean: true, FastSync: mode})
+			for p := 1; p <= srcs[0].writes; p += fsStride {
+				items = append(items, CrashItem{Base: srcs[0].base, From: p, To: p + 1, FastSync: mode})
+			}
+		}
 		// crash-model validation with real SIGKILLs
 		kstride := 23
 		if th {
@@ -511,7 +560,7 @@ func init() {
 			samples = append(samples, s)
 		}
 		cov["samples"] = samples
-		cov["rule"] = "node 0 runs on a BadgerStore behind a wrapper counting its durable store writes (SetEvent/SetRound/SetBlock/SetFrame/SetPeerSet); for every write index p of the stated histories (static seed: every p; dynamic seeds: the stated stride) the node is cut before write p (all in-memory objects abandoned), its directory reopened by a fresh Node with Bootstrap=true through the real Init -> Hashgraph.Bootstrap -> setHeadAndSeq with a reset application, plus a clean close after the whole seed. Oracle: every block delivered before the cut is re-delivered identically and in order; the node knows exactly the events whose SetEvent had returned; head/seq = last persisted self-event; after a fair continuation its next self-event has index seq+1, is accepted by all, no two events of it share a height, and the C01/C02 monitors stay green; then the node is stopped cleanly and bootstrapped a second time and must know everything it knew before that stop (events, delivered blocks, head), continue without a self-fork. Crash-model validation: the same history in a child process that SIGKILLs itself at write p; the state recovered from its directory must equal the one recovered after the in-process cut. distinct_nontrivial = distinct recovered states"
+		cov["rule"] = "node 0 runs on a BadgerStore behind a wrapper counting its durable store writes (SetEvent/SetRound/SetBlock/SetFrame/SetPeerSet); for every write index p of the stated histories (static seed: every p; dynamic seeds: the stated stride) the node is cut before write p (all in-memory objects abandoned), its directory reopened by a fresh Node with Bootstrap=true through the real Init -> Hashgraph.Bootstrap -> setHeadAndSeq with a reset application, plus a clean close after the whole seed. Oracle: every block delivered before the cut is re-delivered identically and in order; the node knows exactly the events whose SetEvent had returned; head/seq = last persisted self-event; after a fair continuation its next self-event has index seq+1, is accepted by all, no two events of it share a height, and the C01/C02 monitors stay green; then the node is stopped cleanly and bootstrapped a second time and must know everything it knew before that stop (events, delivered blocks, head), continue without a self-fork. The crash points of the first history are repeated with fast-sync enabled at the restart (after Init the node is CatchingUp and runs the real Node.fastForward once: against its peers as they are, and with no peer answering); when no anchor is adopted the node must go on Babbling from its database and the whole oracle applies (restarts that do adopt an anchor are counted and only monitored for C01/C02). Crash-model validation: the same history in a child process that SIGKILLs itself at write p; the state recovered from its directory must equal the one recovered after the in-process cut. distinct_nontrivial = distinct recovered states"
 		rep.Assumptions = []string{"a crash is modelled as the prefix of committed Badger transactions (validated by the SIGKILL pass); OS/power failure with SyncWrites=false is outside", "multi-transaction store calls (SetPeerSet, Reset) are cut at their boundaries only"}
 		if tot.Ctr["points_with_blocks_before_crash"] < 5 && len(tot.Viol) == 0 {
 			rep.Finish()
